@@ -569,3 +569,18 @@ for _k in (1, 2, 3, 4, 5):
     benign_patch('ben22-r%d' % _k, ALL)                         # additive API: derives, Path::length, roadmap accessors, iteration counter, debug_assert!s
 CASES.append({'name': 'goal-mask-negated', 'props': ['C02', 'C18'], 'expect': ['C02.goal'], 'patch': '/verif/selftest/benign/ben21-r3.diff',
               'edits': [('oxmpl/src/geometric/planners/prm.rs', '.map(|node| goal.is_satisfied(&node.state))', '.map(|node| !goal.is_satisfied(&node.state))')]})
+
+# ---------------------------------------------------------------- round 9
+seeded('seeded-R9C02-trees-left-swapped-on-timeout', ['C02', 'C15', 'C16'], ['C16.balance'])
+seeded('seeded-R9C05-start-links-cached', ['C05', 'C03'], ['C05.radius'])
+seeded('seeded-R9C06-subsec-millis-deadline', ['C06'], ['C06.deadline'])
+seeded('seeded-R9C11-overshoot-fraction', ['C11'], ['C11.enforce'])
+seeded('seeded-R9C12-infinite-bounds-unordered', ['C12'], ['C12.stored'])
+seeded('seeded-R9C16-skip-coincident-sample', ['C16'], ['C16.extend'])
+seeded('seeded-R9C17-neighbours-prefiltered-by-sample', ['C17', 'C15'], ['C15.range'])
+seeded('seeded-R9C18-start-connections-capped', ['C18'], ['C18.query'])
+seeded('seeded-R9C19-setter-drops-large-fraction', ['C19'], ['C19.forward'])
+seeded('seeded-R9C20-distance-fallback-near-goal', ['C20'], ['C20.goal'])
+for _n in ('ben23-r3', 'ben24-r2', 'ben24-r4', 'ben24-r5', 'ben25-r1', 'ben25-r3', 'ben25-r4', 'ben25-r5',
+           'ben26-r1', 'ben26-r2', 'ben26-r3', 'ben26-r4', 'ben26-r5'):
+    benign_patch(_n, ALL)                                       # deep restructurings that the machinery follows (the seven it does not are in selftest/benign/unsupported, DESIGN 10.20)
